@@ -44,6 +44,8 @@ std::vector<double> GenerateStochasticDistribution (std::vector<double> mesh_x, 
       }
     }
 
+  std::vector<double> tot_real_species = tot_species; // real-valued totals, used to draw the cell to be corrected
+
   for(int i=0; i<n_species; i++)
     {
     tot_species[i] = std::floor(tot_species[i]);
@@ -97,7 +99,7 @@ std::vector<double> GenerateStochasticDistribution (std::vector<double> mesh_x, 
     for(;;)
       {
       double cumul = 0;
-      double target = uiud(rng) * tot_species[s];
+      double target = uiud(rng) * tot_real_species[s];
 
       for(int i=0; i<n_meshes; i++)
         {
